@@ -608,3 +608,36 @@ Example C06_link_leading_ex :
     Some [[0%nat]; [2%nat; 1%nat; 0%nat]] /\
   pca_leading_c 3 3 2 [[[2; 1]; [0; 1]; [0; 1]]; [[-2; -1]; [0; 1]; [0; 1]]; [[0; 0]; [0; -2]; [0; 1]]; [[0; 0]; [0; 0]; [0; -3]]; [[0; 0]; [0; 0]; [0; 0]]] = None.
 Proof. vm_compute. split; reflexivity. Qed.
+
+(* "THE PRINCIPAL COMPONENTS OF EACH CHANNEL".  _compute_pcs computes the components of channel k from x[:, :, k] alone;
+   with the eigen-solver as a per-channel oracle [eig] ([pcs_by_channel]: pcs[i][j][k] = eig(x[:, :, k])[i][j], nothing
+   for an empty spike list) the three features of a requested channel depend on that channel's masked windows only: on the
+   waveform route the column of channel ch is the same wherever, and with whatever other channels, it is requested --
+   the waveform-route analogue of C06_get_features_perm. *)
+Theorem C06_link_channel_local : forall (R : Type) (radd rmul : R -> R -> R) (rzero : R)
+    (eig : list (list R) -> list (list R)) (scale : R -> R) (data : list (list R)) (n : Z) (sps : list spike)
+    (q_ch q_ch' : list Z) (feats feats' : list (list (list R))) (k k' : nat) (ch : Z),
+  let W := map (fun sp => masked_window rzero scale data n sp q_ch) sps in
+  let W' := map (fun sp => masked_window rzero scale data n sp q_ch') sps in
+  compute_features radd rmul rzero (pcs_by_channel rzero eig (Z.to_nat n) (length q_ch)) (Z.to_nat n) (length q_ch) W = Some feats ->
+  compute_features radd rmul rzero (pcs_by_channel rzero eig (Z.to_nat n) (length q_ch')) (Z.to_nat n) (length q_ch') W' = Some feats' ->
+  nth_error q_ch k = Some ch -> nth_error q_ch' k' = Some ch ->
+  length feats = length feats' /\
+  forall t frow frow', nth_error feats t = Some frow -> nth_error feats' t = Some frow' ->
+    nth_error frow k = nth_error frow' k'.
+Proof. exact (@link_channel_local). Qed.
+Print Assumptions C06_link_channel_local.
+
+(* a data-dependent per-channel oracle (first spike's samples, last spike's samples, first spike's samples + 1): the
+   columns of channels 0 and 1 are the same in the requests [0; 1], [1; 0] and [1] *)
+Definition ex4_eig (x : list (list Z)) : list (list Z) := [hd [] x; last x []; map (fun v => v + 1) (hd [] x)].
+Example C06_link_channel_local_ex :
+  option_map (fun st => get_features_wf Z.add Z.mul 0 (pcs_by_channel 0 ex4_eig 2 2) None st [] 2 2 [3; 7] [0; 1]) ex4_store =
+    Some (Some [[[14050; 0; 14210]; [15700; 1100; 15870]]; [[0; 0; 0]; [1100; 100; 1110]]]) /\
+  option_map (fun st => get_features_wf Z.add Z.mul 0 (pcs_by_channel 0 ex4_eig 2 2) None st [] 2 2 [7; 3] [1; 0]) ex4_store =
+    Some (Some [[[1100; 100; 1110]; [0; 0; 0]]; [[15700; 1100; 15870]; [14050; 0; 14210]]]) /\
+  option_map (fun st => get_features_wf Z.add Z.mul 0 (pcs_by_channel 0 ex4_eig 2 1) None st [] 2 2 [7; 3] [1]) ex4_store =
+    Some (Some [[[1100; 100; 1110]]; [[15700; 1100; 15870]]]) /\
+  (* no requested spike is stored: no components (the real code divides by zero), the call fails *)
+  option_map (fun st => get_features_wf Z.add Z.mul 0 (pcs_by_channel 0 ex4_eig 2 2) None st [] 2 2 [9] [0; 1]) ex4_store = Some None.
+Proof. vm_compute. repeat split; reflexivity. Qed.
